@@ -88,6 +88,98 @@ Fixpoint dollar_free (s : string) : bool :=
 Definition plain_req (r : list param) : bool :=
   forallb (fun p => match p with PStr s => sep_safe s | _ => false end) r.
 
+(* ------------------- guards on requests that carry an EnforceContext ------------------ *)
+(* The key text of a context is "EnforceContext{" RT "-" PT "-" ET "-" MT "}".  It is read back
+   unambiguously when the first three names contain no '-' (the fourth may contain anything:
+   it is what is left between the third '-' and the final '}'), and a STRING parameter is told
+   apart from a context when it does not itself spell such a text. *)
+Definition is_dash (c : ascii) : bool := Ascii.eqb c "-"%char.
+
+Fixpoint dash_free (s : string) : bool :=
+  match s with
+  | EmptyString => true
+  | String c s' => negb (is_dash c) && dash_free s'
+  end.
+
+(* s = p ++ rest *)
+Fixpoint strip_prefix (p s : string) : option string :=
+  match p with
+  | EmptyString => Some s
+  | String c p' =>
+      match s with
+      | EmptyString => None
+      | String d s' => if Ascii.eqb c d then strip_prefix p' s' else None
+      end
+  end.
+
+(* split at the first '-' *)
+Fixpoint split_dash (s : string) : option (string * string) :=
+  match s with
+  | EmptyString => None
+  | String c s' =>
+      if is_dash c then Some (EmptyString, s')
+      else match split_dash s' with
+           | Some (a, b) => Some (String c a, b)
+           | None => None
+           end
+  end.
+
+(* s = d ++ "}" *)
+Fixpoint strip_brace (s : string) : option string :=
+  match s with
+  | EmptyString => None
+  | String c s' =>
+      match strip_brace s' with
+      | Some d => Some (String c d)
+      | None =>
+          match s' with
+          | EmptyString => if Ascii.eqb c "}"%char then Some EmptyString else None
+          | String _ _ => None
+          end
+      end
+  end.
+
+(* the canonical reading of a context key text: names up to the first three dashes *)
+Definition parse_ctx (s : string) : option (string * string * string * string) :=
+  match strip_prefix "EnforceContext{" s with
+  | None => None
+  | Some t0 =>
+      match split_dash t0 with
+      | None => None
+      | Some (a, t1) =>
+          match split_dash t1 with
+          | None => None
+          | Some (b, t2) =>
+              match split_dash t2 with
+              | None => None
+              | Some (c, t3) =>
+                  match strip_brace t3 with
+                  | None => None
+                  | Some d => Some (a, b, c, d)
+                  end
+              end
+          end
+      end
+  end.
+
+(* the string spells the key text of some EnforceContext *)
+Definition ctx_shaped (s : string) : bool :=
+  match parse_ctx s with Some _ => true | None => false end.
+
+(* a parameter of a request made of strings and EnforceContext values, inside the guards:
+     string   every '$' is followed by another character, and it is not a context key text
+     context  RType, PType, EType contain no '-', and the whole key text is sep_safe
+              (no "$$" inside a name, no '$' at the end of a name that is followed by "-$",
+              which is the same condition as for strings, read on the text that is written) *)
+Definition ctx_param_ok (p : param) : bool :=
+  match p with
+  | PStr s => sep_safe s && negb (ctx_shaped s)
+  | PCtx a b c d => dash_free a && dash_free b && dash_free c && sep_safe (ctx_text a b c d)
+  | PKey _ | PSlice _ | PNon _ => false
+  end.
+
+Definition ctx_req (r : list param) : bool := forallb ctx_param_ok r.
+
 (* parser used by the injectivity proof: split at the first "$$" *)
 Fixpoint split_sep (s : string) : option (string * string) :=
   match s with
@@ -292,6 +384,14 @@ Section Wrapper.
     | Enforce _ _ | EnableCache _ | SetExpireTime _ | Passthrough _ => false
     end.
 
+  (* operations that call no mutator of the underlying enforcer *)
+  Definition quiet (o : op) : bool :=
+    match o with
+    | Enforce _ _ | InvalidateCache | EnableCache _ | SetExpireTime _ => true
+    | LoadPolicy | ClearPolicy | RemovePolicy _ | RemovePolicies _ | AddPolicy _ | AddPolicies _
+    | Passthrough _ => false
+    end.
+
   (* no other request of the history has the key of r *)
   Definition no_collision (h : list op) (r : list param) : Prop :=
     forall t r', In (Enforce t r') h -> get_key r' = get_key r -> r' = r.
@@ -316,7 +416,7 @@ Arguments ClearPolicy {M}. Arguments RemovePolicy {M}. Arguments RemovePolicies 
 Arguments AddPolicy {M}. Arguments AddPolicies {M}. Arguments EnableCache {M}.
 Arguments SetExpireTime {M}. Arguments Passthrough {M}.
 Arguments with_u {U M}. Arguments enforce_step {U}. Arguments step {U M}. Arguments run {U M}.
-Arguments invalidates {M}. Arguments no_collision {M}. Arguments respects_for {U M}.
+Arguments invalidates {M}. Arguments quiet {M}. Arguments no_collision {M}. Arguments respects_for {U M}.
 Arguments hit {U}.
 
 (* ------------------------------------------------------------------------------------ *)
@@ -538,3 +638,135 @@ Definition acl_op_ok (v : variant) (o : acl_op) : bool :=
       end
   | Passthrough _ => false
   end.
+
+(* ------------------------------------------------------------------------------------ *)
+(* Second test fixture: a model with several request / policy / effect / matcher sections, *)
+(* selected per call by a leading EnforceContext                                          *)
+(*   r  = sub, obj, act     r2 = sub, obj, act                                            *)
+(*   p  = sub, obj, act     p2 = sub, obj, act                                            *)
+(*   e  = some(where (p.eft == allow))        e2 = !some(where (p.eft == deny))           *)
+(*   m  = r.sub == p.sub && r.obj == p.obj && r.act == p.act                              *)
+(*   m2 = r2.sub == p2.sub && r2.obj == p2.obj                                            *)
+(*   m3 = r.sub == p.sub && r.obj == p.obj                                                *)
+(*   m4 = r2.sub == p2.sub && r2.obj == p2.obj && r2.act == p2.act                        *)
+(*   m5 = r.sub == p2.sub && r.obj == p2.obj && r.act == p2.act                           *)
+(*   m6 = r2.sub == p.sub && r2.obj == p.obj                                              *)
+(* enforce() with context {RT, PT, ET, MT} (enforcer.go):                                 *)
+(*   - a name that is not a section of its kind is a nil dereference, recovered into an   *)
+(*     error;                                                                             *)
+(*   - "invalid request size" unless three values follow the context;                     *)
+(*   - the matcher reads the tokens RTOK_sub ... / PTOK_sub ... of the sections it was     *)
+(*     written for: under any other RT / PT the parameter lookup fails ("No parameter      *)
+(*     found"), an error;                                                                 *)
+(*   - empty policy PT: the matcher is evaluated once against empty policy fields;         *)
+(*   - otherwise the rules of PT are scanned in order, "invalid policy size" on a rule of  *)
+(*     the wrong arity; e stops at the first match (allow), e2 (no eft column, so no rule  *)
+(*     denies) scans to the end and allows.                                               *)
+(* RemovePolicy / AddPolicy / ... of the wrappers act on "p"; "p2" is changed through      *)
+(* AddNamedPolicy / RemoveNamedPolicy (pass-through). LoadPolicy restores both, ClearPolicy *)
+(* empties both.                                                                          *)
+(* ------------------------------------------------------------------------------------ *)
+Record cx_state := mk_cx { cx_p : acl_state; cx_pol2 : list (list string); cx_stored2 : list (list string) }.
+
+Inductive cx_mut :=
+| CxP (m : acl_mut)                     (* a pass-through mutator on "p" *)
+| CxAdd2 (rule : list string)           (* AddNamedPolicy("p2", ...) *)
+| CxRemove2 (rule : list string).       (* RemoveNamedPolicy("p2", ...) *)
+
+Inductive cx_eff := AllowOverride | DenyOverride.
+
+(* matcher name -> (request section, policy section, number of leading fields compared) *)
+Definition cx_matchers : list (string * (string * string * nat)) :=
+  [("m", ("r", "p", 3)); ("m2", ("r2", "p2", 2)); ("m3", ("r", "p", 2));
+   ("m4", ("r2", "p2", 3)); ("m5", ("r", "p2", 3)); ("m6", ("r2", "p", 2))].
+
+Fixpoint cx_matcher (l : list (string * (string * string * nat))) (mt : string)
+  : option (string * string * nat) :=
+  match l with
+  | [] => None
+  | (k, d) :: rest => if String.eqb mt k then Some d else cx_matcher rest mt
+  end.
+
+Definition cx_effect (et : string) : option cx_eff :=
+  if String.eqb et "e" then Some AllowOverride
+  else if String.eqb et "e2" then Some DenyOverride else None.
+
+Definition cx_known_r (rt : string) : bool := (String.eqb rt "r" || String.eqb rt "r2")%bool.
+
+Definition cx_policy (st : cx_state) (pt : string) : option (list (list string)) :=
+  if String.eqb pt "p" then Some (policy (cx_p st))
+  else if String.eqb pt "p2" then Some (cx_pol2 st) else None.
+
+(* the first n request values equal the first n fields of the rule *)
+Fixpoint prefix_match (n : nat) (ps : list param) (rule : list string) : bool :=
+  match n with
+  | O => true
+  | S n' =>
+      match ps, rule with
+      | p :: ps', f :: rule' => param_is p f && prefix_match n' ps' rule'
+      | _, _ => false
+      end
+  end.
+
+Fixpoint cx_scan (eff : cx_eff) (n : nat) (pol : list (list string)) (rv : list param) : option bool :=
+  match pol with
+  | [] => Some (match eff with AllowOverride => false | DenyOverride => true end)
+  | rule :: rest =>
+      if negb (Nat.eqb (List.length rule) 3) then None
+      else match eff with
+           | AllowOverride => if prefix_match n rv rule then Some true else cx_scan eff n rest rv
+           | DenyOverride => cx_scan eff n rest rv
+           end
+  end.
+
+Definition cx_eval (st : cx_state) (rt pt et mt : string) (rv : list param) : option bool :=
+  match cx_matcher cx_matchers mt, cx_policy st pt, cx_effect et with
+  | Some (mr, mp, n), Some pol, Some eff =>
+      if negb (cx_known_r rt) then None
+      else if negb (Nat.eqb (List.length rv) 3) then None              (* invalid request size *)
+      else if negb (String.eqb rt mr && String.eqb pt mp) then None    (* No parameter found *)
+      else match pol with
+           | [] => match eff with
+                   | AllowOverride => Some (prefix_match n rv [""; ""; ""])
+                   | DenyOverride => Some true
+                   end
+           | _ :: _ => cx_scan eff n pol rv
+           end
+  | _, _, _ => None
+  end.
+
+Definition cx_enforce (st : cx_state) (ps : list param) : option bool :=
+  match ps with
+  | PCtx rt pt et mt :: rest => cx_eval st rt pt et mt rest
+  | _ => cx_eval st "r" "p" "e" "m" ps
+  end.
+
+Definition cx_lift (st : cx_state) (c : ucall acl_mut) : cx_state * uret :=
+  let (p', r) := acl_step (cx_p st) c in (mk_cx p' (cx_pol2 st) (cx_stored2 st), r).
+
+Definition cx_set2 (st : cx_state) (pol2 : list (list string)) : cx_state :=
+  mk_cx (cx_p st) pol2 (cx_stored2 st).
+
+Definition cx_step (st : cx_state) (c : ucall cx_mut) : cx_state * uret :=
+  match c with
+  | ULoad => (mk_cx (set_policy (cx_p st) (stored (cx_p st))) (cx_stored2 st) (cx_stored2 st), URet true false)
+  | UClear => (mk_cx (set_policy (cx_p st) []) [] (cx_stored2 st), URet true false)
+  | UAdd ps => cx_lift st (UAdd ps)
+  | UAddMany rules => cx_lift st (UAddMany rules)
+  | URemove ps => cx_lift st (URemove ps)
+  | URemoveMany rules => cx_lift st (URemoveMany rules)
+  | UOther (CxP m) => cx_lift st (UOther m)
+  | UOther (CxAdd2 rule) =>
+      if has_rule rule (cx_pol2 st) then (st, URet false false)
+      else (cx_set2 st (cx_pol2 st ++ [rule]), URet true false)
+  | UOther (CxRemove2 rule) =>
+      if has_rule rule (cx_pol2 st) then (cx_set2 st (remove_first rule (cx_pol2 st)), URet true false)
+      else (st, URet false false)
+  end.
+
+Definition cx_init (rules1 rules2 : list (list string)) : state cx_state :=
+  init (mk_cx (mk_acl rules1 rules1) rules2 rules2).
+
+Definition cx_op := op cx_mut.
+Definition cx_run_step (v : variant) (s : state cx_state) (o : cx_op) : state cx_state * out :=
+  step cx_enforce cx_step v s o.
